@@ -149,33 +149,33 @@ TEXT = {
              level="Theorems about mergeRowRanges/mergeSimpleRanges and the scan: the merged ranges denote exactly the union of the requested keys and ranges for ALL range lists, the scan returns each qualifying row once in key order, limits take the first N rows with output." + _CORR, note=_NOTE),
  "C04": dict(technique="Coq proof (truth-table equivalence, frame theorem over all handlers) + complete enumeration of the condition table by vm_compute correspondence",
              level="Theorems about parseConds/validateConds and every handler model: the code's truth table equals 'every supplied precondition holds' for all values and object states (guarded; the excluded case is refuted by a witness = finding GCS-7), failure codes lie in the allowed set, errors leave all objects untouched. Correspondence: the complete 4-parameter x 6-value x 4-state x 7-operation x 2-store table plus random histories, with a model-independent oracle on the observed responses." + _CORR, note=_NOTE),
- "C05": dict(technique="Coq proof (regex matcher correctness, filter evaluator vs denotational filter semantics) + differential correspondence on generated filter trees, 3 engines",
+ "C05": dict(technique="Coq proof (regex matcher correctness, filter evaluator vs denotational filter semantics) + differential correspondence on generated filter trees and on the exhaustive set of leaves, boundary leaves and depth-2 compositions of a 24-leaf basis, 3 engines",
              level="Theorems about the filter model: the derivative matcher decides the regular language; the evaluator refines the cell-list semantics of every supported filter; invalid arguments are rejected by the validator for all trees." + _CORR, note=_NOTE),
  "C06": dict(technique="Coq proof (interleaving model: every schedule equals the serial execution of the critical sections in acquisition order; failure atomicity of the write handlers) + exhaustive two-request interleavings driven through yield hooks on the real server, 3 engines",
              level="Theorems about the interleaving model of the table lock (any number of threads, any schedule): the lock invariant, equality of every scheduled run with the serial run in acquisition order (responses included), real-time order, and failure atomicity of MutateRow / MutateRows entries / CheckAndMutateRow / ReadModifyWriteRow for every position of an invalid mutation. Correspondence: all interleavings of two requests at the instrumented yield points are executed on real goroutines and compared step by step (parked / blocked / returned + response), then a full read." + _CORR, note=_NOTE + " The Go scheduler, sync.RWMutex and the memory model are assumptions; preemption is exhibited only at hook points."),
- "C07": dict(technique="Coq proof over the interleaving model (per-object lock; every schedule equals a serial execution per object) + exhaustive two-request interleavings driven through yield hooks on the real handlers, both stores",
+ "C07": dict(technique="Coq proof over the interleaving model (per-object lock; every schedule equals a serial execution per object) + exhaustive two-request interleavings (GETs preempted between store read and answer) driven through yield hooks on the real handlers, abandoned-request scenarios judged by an oracle, both stores",
              level="Theorems about the interleaving model of the handlers (any number of threads, any schedule): the lock invariant, store effects on one object equal a serial order consistent with real time, of N writers conditioned on one generation or on non-existence exactly one succeeds, a metageneration-conditioned patch applies only to a matching state, no update is lost; memory-store reads return one committed version. The file store's three-step Add seen by a lock-free reader is refuted by a schedule (finding GCS-10). Correspondence: all interleavings of two requests at the yield point between precondition check and store mutation are executed on real goroutines and compared step by step, then the final state." + _CORR, note=_NOTE + " The object lock is atomic by C19; the Go scheduler and memory model are assumptions."),
  "C08": dict(technique="Coq proof over a disk-effect model (images at every crash point, restart function): durability and crash atomicity for all programs + point-in-time directory images at every request boundary and crash hook restarted on the real engine",
              level="Theorems about the disk model of the leveldb disk engine (definition files written as temp + rename, one leveldb directory per table, DeleteTable removing definition then directory, Create clearing a leftover directory first, Clear as one atomic batch): for every state reachable by requests, clean restarts and kills at crash points (leftover directories with rows included) the server restarted on the image after an acknowledged request serves the acknowledged state, and the image at every crash point inside metadata persistence, create and delete restarts to the state before or after the request — with one exception refuted by a witness and recorded as a finding (BT-18: drop-family purge before persistence). Correspondence: real directory images at every request boundary and crash hook are started as second servers and compared with the model's restart; program segments are separated by clean restarts or by kills at a crash point of the last request, the next segment carrying on from that image." + _CORR, note=_NOTE + " goleveldb recovery, rename atomicity and 'kill -9 = OS-level image' are assumptions; power loss is out of scope."),
  "C09": dict(technique="Coq proof (file-store walk model lists exactly what the memory-store walk lists, hence equal answers for all request histories) + paired differential correspondence (both stores against their models) with a restart probe at request boundaries",
              level="One handler model serves both stores and differs only in the listing walk (the file store's walk also meets the directory entries that lead to each name); theorems show that the two walks list the same for every delimiter, cursor, prefix and page size, hence that whole request histories are answered identically by both stores (the former filepath.Walk order, GCS-2, is kept as a refuted witness of what the repair changed). Correspondence: each program runs on both real stores against the corresponding model; on the file store a fresh emulator instance on the same directory must answer like the running one at request boundaries; a sidecar-less content file must be served." + _CORR, note=_NOTE),
- "C10": dict(technique="Coq invariant proof (generation counter monotone, metageneration laws) + differential correspondence on random histories, both stores",
+ "C10": dict(technique="Coq invariant proof (generation counter monotone, metageneration laws) + differential correspondence on random histories and on all interleavings of a patch with a second writer of the object, both stores",
              level="Theorems over all histories of the handler model with the store clock as a strictly increasing counter: every content write gets a generation above everything handed out before and metageneration 1; a patch bumps only metageneration; reads and failures change nothing." + _CORR, note=_NOTE + " Assumes the stores' wall clock strictly increases between successive writes."),
  "C11": dict(technique="Coq proof (pagination complete/duplicate-free/sorted with and without delimiter; early-exit soundness) + exhaustive enumeration of name-universe subsets x prefixes x delimiters x page sizes with a whole-pagination oracle, both stores",
              level="Theorems about the listing walk: with an ascending walk order the prefix abort and cursor skip lose nothing, a page holds at most maxResults items and collapsed prefixes, and following the tokens from the empty cursor yields exactly the matching names and exactly the distinct collapsed prefixes, each once and in order, for every prefix, delimiter and page size, on every state reachable from the empty store (no stored object has the empty name) and on both stores (the file store's walk lists what the memory store's walk lists); what the former token rule (GCS-1) and the former walk order (GCS-2) did is kept as refuted witnesses. The oracle independently checks every complete pagination of the enumerated name sets against the API semantics." + _CORR, note=_NOTE),
  "C18": dict(technique="Coq proof over the interleaving model (scan = read-locked sections over one snapshot per range) + forced schedules at every hand-over of real multi-message scans, both leveldb engines",
              level="Theorems about the interleaving model of a ReadRows scan that gives up the table lock while streaming, for all schedules and any number of writers: every returned row is the row's value in the snapshot taken when its range scan started (a state that existed between scan start and end, never a mixture), rows come in strictly ascending order without duplicates, rows not written during the scan are returned as stored, and the scan ends OK. Correspondence: real scans spanning several messages are parked at every hand-over while writers, deleters and read-modify-writes act on rows before/at/after the scan position; every step and the returned rows are compared with the model." + _CORR, note=_NOTE + " goleveldb's snapshot guarantee, sync.RWMutex and the Go scheduler are assumptions; DropRowRange (all rows / by prefix) under a parked scan is part of the schedules since the repair of BT-17."),
- "C20": dict(technique="Coq proof (every error answer of both handler models leaves the stored data untouched) + oracle-judged structured perturbation of HTTP and gRPC requests, forced schedules, and concurrent mixes under the Go race detector",
+ "C20": dict(technique="Coq proof (every error answer of both handler models leaves the stored data untouched) + oracle-judged structured perturbation of HTTP and gRPC requests (incl. well-formed requests with degenerate names and absurd sizes), forced schedules, and concurrent mixes under the Go race detector; the death of the process hosting the emulator is itself reported as a violation",
              level="Only part of this property is within reach of a proof: theorems state that in both handler models every request answered with an error leaves all stored data unchanged (for all states and requests), and the model comparison pins the status of degenerate requests. Panics inside library code, fatal runtime errors, data races and hangs cannot be expressed by an executable model; they are exhibited dynamically: thousands of perturbed HTTP requests (incl. batch wrapping) and degenerate gRPC requests judged by an oracle (returns, valid status, JSON error envelope, one batch sub-response per part, seeded data intact), a forced schedule for the scan/clear hazard (BT-17, repaired), and concurrent admin+data mixes under the race detector. Labelled partial." + _CORR, note=_NOTE + " The race detector only sees the schedules that occurred."),
- "C19": dict(technique="Coq invariant proof over an executable small-step model (any number of goroutines, keys, steps, cancellations) + step-by-step correspondence through yield hooks, exhaustive for 2 goroutines x 1 key",
+ "C19": dict(technique="Coq invariant proof over an executable small-step model (any number of goroutines, keys, steps, cancellations) + step-by-step correspondence through yield hooks, exhaustive for 2 goroutines x 1 key, + a free-running stress phase (Lock, Unlock and Run) judged by the property itself",
              level="Theorems for every reachable state of the step model of TransientLockMap/countedLock (any number of threads and keys, any schedule, any cancellations): the inductive invariant, mutual exclusion, Lock returns true iff it acquired, a cancelled Lock holds nothing and changes no channel, no lost wake-up, independence of keys, Unlock of an unheld key panics with the state unchanged, no leak at quiescence, no deadlock. Correspondence: real goroutines are stepped through yield points at each internal step; outcome class and map size after every action are compared with the model (either select choice accepted where both are ready) and with a model-independent oracle." + _CORR, note=_NOTE + " Go channel/mutex semantics are the model's rules; the runtime's select choice is sampled."),
- "C12": dict(technique="Coq proof (branch selection of CheckAndMutateRow vs filter semantics) + differential correspondence, 3 engines",
+ "C12": dict(technique="Coq proof (branch selection of CheckAndMutateRow vs filter semantics) + differential correspondence incl. all interleavings of a CheckAndMutateRow with a second write to the row, 3 engines",
              level="Theorems about the CheckAndMutateRow model: predicate_matched iff the predicate filter yields a cell on the current row, exactly the selected mutation list is applied with MutateRow semantics, errors leave the row unchanged." + _CORR, note=_NOTE),
- "C13": dict(technique="Coq proof (big-endian codec round trip, rule fold vs spec, wrap-around) + differential correspondence, 3 engines",
+ "C13": dict(technique="Coq proof (big-endian codec round trip, rule fold vs spec, wrap-around) + differential correspondence incl. all interleavings of a ReadModifyWriteRow with a second write to the row, 3 engines",
              level="Theorems about the ReadModifyWriteRow model: be64 round trip, increments wrap at 64 bits, rules apply in order to the newest cell, timestamp = max(server ms, previous), failure atomicity." + _CORR, note=_NOTE),
  "C14": dict(technique="Coq proof (registry laws, atomic family modification, exact prefix drop) + differential correspondence on admin/data programs, 3 engines",
              level="Theorems about the admin handlers' model: create/get/list/delete laws, ModifyColumnFamilies applies all modifications or none, dropping a family removes exactly its cells, DropRowRange removes exactly the keys with the prefix." + _CORR, note=_NOTE),
- "C15": dict(technique="Coq proof (compose = concatenation, bounds, copy clones) + differential correspondence on random histories, both stores",
+ "C15": dict(technique="Coq proof (compose = concatenation, bounds, copy clones) + differential correspondence on random histories and on all interleavings of a compose / copy with a second writer of the object, both stores",
              level="Theorems about the compose/copy handler models for all source lists and states." + _CORR, note=_NOTE),
  "C16": dict(technique="Coq proof (applyGC = filter of non-condemned cells; pass touches nothing else) + differential correspondence with forced GC passes, 3 engines",
              level="Theorems about applyGC and the GC pass model for all rule trees, cell lists and clocks; schedule part (hand-over) by the section/mutex model." + _CORR, note=_NOTE),
